@@ -109,7 +109,7 @@ Inv(t, call) ==
   /\ pend[t].st = "idle"
   /\ pend' = [pend EXCEPT ![t] = [st |-> "inv", snap |-> IF cfg.dur /\ call.op = "sync" THEN acked ELSE <<>>] @@ call]
   /\ scans' = IF Mutator(call.op) THEN Touch(scans, call.k) ELSE scans
-  /\ everPut' = IF call.op = "put" THEN everPut \cup {<<call.k, call.v>>} ELSE everPut
+  /\ everPut' = IF call.op = "put" /\ cfg.ep THEN everPut \cup {<<call.k, call.v>>} ELSE everPut
   /\ closing' = (closing \/ call.op = "close")
   /\ UNCHANGED <<kv, mode, back, cfg, seq, ver, acked, floor, closedLin, img, bk, held>>
 
